@@ -19,7 +19,8 @@ RULE += (" MANAGER SWEEP (harness c07_mgr): each of the 77 task-returning reques
          "length <= 2 (thorough 3) over {empty result, error, result with an unexpected payload, result echoing the request payload, "
          "silence} (MAM also: <fin/> after 0 / 1 plain / 1 encrypted / 2 mixed result messages), with and without a forged copy of the first "
          "reply from a stranger sent first, with and without an encryption extension installed; a request still pending at the end of the "
-         "script meets a non-resumable connection loss. Oracle: the returned task completes exactly once; the forged reply completes nothing; "
+         "script meets a non-resumable connection loss; every API is also called once before the client ever connected (must complete with "
+         "an error at once) followed by the same case on a fresh session. Oracle: the returned task completes exactly once; the forged reply completes nothing; "
          "the process neither crashes nor hangs.")
 ASSUME = ["three outstanding requests at most; ids r1..r3 chosen by the harness",
           "sends are issued only while a session is open",
@@ -31,7 +32,7 @@ WIT = ["completed_by_reply", "wrong_sender_replies", "cancelled_by_drop", "retai
 def manager_sweep(tier):
     def extra(findings, cov):
         r = enum_pass(PROP, "c07_mgr", tier, [], findings, label="manager sweep",
-                      witness=("completed_by_reply_or_send", "completed_by_connection_loss", "mam_page_cases"))
+                      witness=("completed_by_reply_or_send", "completed_by_connection_loss", "mam_page_cases", "offline_first_cases"))
         cov["manager_sweep_cases"] = r["evaluations"]
         cov["manager_sweep_counters"] = r["counters"]
         cov["manager_sweep_outcomes"] = len(r["outcomes"])
